@@ -32,6 +32,7 @@ type setInfo struct {
 	maxT   int64
 	names  []string // metric names present
 	lastBefore []gapPoint // samples followed by a gap longer than the look-back (or by nothing)
+	counters   []int      // indices of the counter series
 	hasGap bool
 	hasStale bool
 	hasReset bool
@@ -55,6 +56,7 @@ func genSet(r *hx.Rng, big bool) (*sampleSet, *setInfo) {
 		spanMs = int64(90+r.Intn(60)) * 60_000
 	}
 	seen := map[string]bool{}
+	counterKeys := map[string]bool{}
 	fracSet := r.Chance(15)
 	for _, name := range names {
 		nSeries := 2 + r.Intn(5)
@@ -101,6 +103,12 @@ func genSet(r *hx.Rng, big bool) (*sampleSet, *setInfo) {
 			var cur float64
 			if sk == 0 {
 				cur = float64(r.Intn(1000))
+				switch r.Intn(10) {
+				case 0, 1, 2:
+					cur = 0 // a freshly created counter
+				case 3:
+					cur = 1 // tiny positive first value
+				}
 			} else {
 				cur = float64(r.Intn(200) - 100)
 			}
@@ -109,6 +117,9 @@ func genSet(r *hx.Rng, big bool) (*sampleSet, *setInfo) {
 				if sk == 0 {
 					if r.Chance(4) {
 						cur = float64(r.Intn(20)) // counter reset
+						if r.Chance(50) {
+							cur = 0 // a reset that lands on exactly 0
+						}
 						info.hasReset = true
 					} else if !r.Chance(15) {
 						cur += float64(r.Intn(50))
@@ -147,6 +158,9 @@ func genSet(r *hx.Rng, big bool) (*sampleSet, *setInfo) {
 			if len(sr.points) == 0 {
 				continue
 			}
+			if sk == 0 {
+				counterKeys[labelsKey(sr.labels)] = true
+			}
 			set.series = append(set.series, sr)
 		}
 	}
@@ -166,6 +180,9 @@ func genSet(r *hx.Rng, big bool) (*sampleSet, *setInfo) {
 	sort.Slice(info.times, func(i, j int) bool { return info.times[i] < info.times[j] })
 	info.minT, info.maxT = info.times[0], info.times[len(info.times)-1]
 	for si, sr := range set.series {
+		if counterKeys[labelsKey(sr.labels)] {
+			info.counters = append(info.counters, si)
+		}
 		for i, p := range sr.points {
 			if isStale(p.v) {
 				continue
@@ -666,9 +683,97 @@ func (g *exprGen) evalTime() int64 {
 	}
 }
 
+// extrapolationQuery: rate / increase / delta over a window placed on the boundary values of the
+// extrapolation formula: the first sample of the window strictly inside it (preferably a counter
+// sample that is exactly 0 - a fresh counter or a reset to 0 -, where the duration-to-zero clamp
+// decides), the distance from the window bounds to the first / last sample at 1.1 x the average
+// interval +-1 ms, exactly two samples, all-equal samples.
+func (g *exprGen) extrapolationQuery() *query {
+	if len(g.info.counters) == 0 {
+		return nil
+	}
+	si := g.info.counters[g.r.Intn(len(g.info.counters))]
+	sr := &g.set.series[si]
+	var real []point
+	for _, p := range sr.points {
+		if !isStale(p.v) {
+			real = append(real, p)
+		}
+	}
+	if len(real) < 3 {
+		return nil
+	}
+	// first sample of the window: a zero sample if there is one (70 %), else any
+	a := g.r.Intn(len(real) - 1)
+	var zeros []int
+	for i, p := range real[:len(real)-1] {
+		if p.v == 0 || p.v == 1 {
+			zeros = append(zeros, i)
+		}
+	}
+	if len(zeros) > 0 && g.r.Chance(70) {
+		a = zeros[g.r.Intn(len(zeros))]
+	}
+	b := a + 1 + g.r.Intn(4)
+	if b >= len(real) {
+		b = len(real) - 1
+	}
+	avg := (real[b].t - real[a].t) / int64(b-a)
+	// window start strictly between the previous sample and the first one
+	room := int64(120_000)
+	if a > 0 {
+		room = real[a].t - real[a-1].t - 1
+	}
+	if room < 1 {
+		return nil
+	}
+	before := 1 + int64(g.r.Intn(int(room)))
+	if thr := avg*11/10 + int64(g.r.Intn(3)) - 1; thr >= 1 && thr <= room && g.r.Chance(40) {
+		before = thr // the 1.1 x average-interval threshold, +-1 ms
+	}
+	roomEnd := int64(120_000)
+	if b+1 < len(real) {
+		roomEnd = real[b+1].t - real[b].t - 1
+	}
+	after := int64(0)
+	if roomEnd > 0 {
+		after = int64(g.r.Intn(int(roomEnd) + 1))
+		if thr := avg*11/10 + int64(g.r.Intn(3)) - 1; thr >= 0 && thr <= roomEnd && g.r.Chance(40) {
+			after = thr
+		}
+	}
+	t := real[b].t + after
+	sel := &selector{}
+	for _, l := range sr.labels {
+		if l.name == "__name__" {
+			sel.matchers = append([]matcher{{label: "__name__", kind: "eq", lit: l.value}}, sel.matchers...)
+		}
+	}
+	for _, l := range sr.labels {
+		if l.name != "__name__" {
+			sel.matchers = append(sel.matchers, matcher{label: l.name, kind: "eq", lit: l.value})
+		}
+	}
+	var e expr = &rangeFn{fn: g.pick([]string{"rate", "increase", "increase", "delta"}), sel: sel, rng: t - (real[a].t - before)}
+	if g.r.Chance(20) {
+		e = &aggExpr{op: "sum", labels: []string{"job"}, e: e}
+	}
+	q := &query{e: e, text: e.text(), start: t, end: t, lb: lookbackMs}
+	if g.r.Chance(25) {
+		q.step = []int64{1_000, 250, 7_000}[g.r.Intn(3)]
+		q.end = q.start + q.step*int64(1+g.r.Intn(3))
+	}
+	return q
+}
+
 func (g *exprGen) genQuery(avoid bool) *query {
 	g.hint = nil
 	g.avoid = avoid
+	if g.r.Chance(8) {
+		if q := g.extrapolationQuery(); q != nil {
+			return q
+		}
+	}
 	t := g.evalTime()
 	q := &query{start: t, end: t, lb: lookbackMs}
 	if g.hint == nil && g.r.Chance(10) {
